@@ -129,6 +129,11 @@ for meth in ("__getitem__", "_vindex", "_blocks"):
         add("C12", col.methods[meth], ("raise",), why="Array-level refusal of an unsupported index")
 add("C12", repo.mod("dask_array.slicing._basic").func("take"), ("return", "raise"), why="take: the identity shortcut returns x only for an exact identity index; unknown sizes are refused")
 
+# ---- C16: refusals of invalid chunk specifications ------------------------------------------------------
+cu = repo.mod("dask_array._core_utils")
+for fn in ("normalize_chunks", "auto_chunks", "blockdims_from_blockshape"):
+    add("C16", cu.func(fn), ("raise",), why="an invalid chunk specification is refused instead of producing a layout that does not tile the shape")
+
 os.makedirs(os.path.dirname(FIXTURE), exist_ok=True)
 with open(FIXTURE, "w") as fh:
     json.dump(out, fh, indent=1, sort_keys=True)
